@@ -190,11 +190,11 @@ def sched_cases(draw):
 
 # ------------------------------------------------------------------------------
 def parts(tier):
-    return [Part('dispatch_py', dispatch_cases(False), quick=600, thorough=4000),
-            Part('dispatch_sh', dispatch_cases(True),  quick=110, thorough=500),
-            Part('worker_streams', worker_cases(),     quick=600, thorough=4000),
-            Part('master_streams', master_cases(),     quick=400, thorough=3000),
-            Part('sched_forwarding', sched_cases(),    quick=300, thorough=2500)]
+    return [Part('dispatch_py', dispatch_cases(False), quick=600, thorough=3000),
+            Part('dispatch_sh', dispatch_cases(True),  quick=110, thorough=400),
+            Part('worker_streams', worker_cases(),     quick=600, thorough=3000),
+            Part('master_streams', master_cases(),     quick=400, thorough=2500),
+            Part('sched_forwarding', sched_cases(),    quick=300, thorough=2000)]
 
 
 def run_case(case):
